@@ -73,6 +73,13 @@ def plan(tier):
     DOCS = corpus.docs(nmax, (1, 1000, "a"), ("a", "b"), sets=False)
     DOCS += [s for s in corpus.collision_pack()
              if not (isinstance(s, tuple) and s[0] == "s")]
+    # arrays of different lengths side by side, holding empty arrays (a slice
+    # over all of them selects nothing of the short ones)
+    DOCS += [("m", (("a", ("l", ("p", "q", "r", "s"))),
+                    ("b", ("l", ("x", ("l", ())))),
+                    ("c", ("l", (("l", ()), ("l", ())))))),
+             ("l", (("l", ("p", "q", "r")), ("l", (("l", ()), "x")),
+                    ("l", ("x", ("l", ())))))]
     DOCS += [("l", ("p", "q", "r", "s")), ("l", (1, 1, 1, 1)),
              ("m", (("a", ("l", ("p", "q", "r", "s"))), ("b", 1)))]
     voc = paths.vocab("c01-quick") + [("idx", -2), ("idx", 2)] + [
@@ -249,6 +256,21 @@ def check_delete(st, doc0, text, shp, segs, ptext):
     mod = model(doc0, segs)
     if mod[0] == "unspecified":
         st.extra["unspecified"] += 1
+        return None
+    if mod[0] == "nomatch" and segs and segs[0] != "collector" \
+            and segs[-1][0] == "slice":
+        # a slice which selects nothing (reversed or meeting bounds): a
+        # delete through it is refused or removes nothing
+        doc = editrun.fresh(doc0)
+        res, detail = editrun.apply_delete(doc, ptext)
+        st.transitions += 1
+        st.outcomes["empty-slice:" + res] += 1
+        if res not in ("ok", "ype") or corpus.canon(
+                doc, anchors=True) != corpus.canon(doc0, anchors=True):
+            st.fail("delete|%s|empty-slice-removed-something" % paths.sig(
+                segs), {"doc": text, "op": "delete", "path": ptext,
+                        "segs": segs}, "document unchanged",
+                    "%s %s: %r" % (res, detail, corpus.canon(doc))[:300])
         return None
     if mod[0] in ("error", "nomatch"):
         st.extra["no_match_or_error"] += 1
